@@ -185,11 +185,10 @@ class DeferredFileWriter(metaclass=Singleton):
         """
         Append the contents of tmp_path to final_path and remove tmp_path.
         """
-        if 'b' in mode:
-            tmp_mode = 'rb'
-        else:
-            tmp_mode = 'r'
-        with _open(str(final_path), mode=mode) as final_file, _open(tmp_path, mode=tmp_mode) as tmp_file:
+        # The temporary file holds the bytes exactly as they were written, so
+        # they are copied as bytes whatever `mode` is: reading them back as
+        # text would translate line endings and fail on binary content.
+        with _open(str(final_path), mode='ab') as final_file, _open(tmp_path, mode='rb') as tmp_file:
             final_file.write(tmp_file.read())
         os.remove(tmp_path)
 
